@@ -21,6 +21,8 @@ type vedge struct {
 	from, to *vnode
 	cond     string // set when from is executed
 	succIdx  int
+	tagKey   string // fact learned on this edge: interface term ...
+	tagVal   int    // ... has tag tagVal (>0) or does not have tag -tagVal (<0)
 }
 
 type vnode struct {
@@ -379,7 +381,17 @@ func (in *inst) execNode(n *vnode, entry *State) {
 			continue
 		}
 		conds = append(conds, e.cond)
-		sts = append(sts, e.from.out)
+		ps := e.from.out
+		if e.tagKey != "" {
+			ps = ps.clone()
+			if ps.tags == nil {
+				ps.tags = map[string]int{}
+			}
+			if e.tagVal > 0 || ps.tags[e.tagKey] == 0 {
+				ps.tags[e.tagKey] = e.tagVal
+			}
+		}
+		sts = append(sts, ps)
 		edges = append(edges, e)
 	}
 	if n.blk.Index == 0 && n.kind == nkNormal && len(n.preds) == 0 {
@@ -609,11 +621,18 @@ func (in *inst) execInstr(n *vnode, st *State, ins ssa.Instruction) {
 		n.succs[0].cond = st.reach
 	case *ssa.If:
 		c := in.lookup(n, x.Cond)
+		of, isOk := fv.okTerms[c.T]
 		for _, e := range n.succs {
 			if e.succIdx == 0 {
 				e.cond = fv.def("edge", "Bool", and(st.reach, c.T))
+				if isOk {
+					e.tagKey, e.tagVal = of.iface, of.tag
+				}
 			} else {
 				e.cond = fv.def("edge", "Bool", and(st.reach, not(c.T)))
+				if isOk {
+					e.tagKey, e.tagVal = of.iface, -of.tag
+				}
 			}
 		}
 	case *ssa.Return:
@@ -658,7 +677,9 @@ func (in *inst) indexAddr(n *vnode, st *State, x *ssa.IndexAddr) {
 	switch t := types.Unalias(x.X.Type()).Underlying().(type) {
 	case *types.Slice:
 		in.safety(n, st, "index", and("(bvsle #x0000000000000000 "+idx+")", "(bvslt "+idx+" (slen "+base.T+"))"), x.Pos())
-		in.setVal(n, x, Val{K: KLoc, T: fv.def("ea", "Loc", lelem("(sarr "+base.T+")", "(bvadd (soff "+base.T+") "+idx+")")), Typ: x.Type()})
+		ea := fv.def("ea", "Loc", lelem("(sarr "+base.T+")", "(bvadd (soff "+base.T+") "+idx+")"))
+		fv.elemLocs[ea] = true
+		in.setVal(n, x, Val{K: KLoc, T: ea, Typ: x.Type()})
 	case *types.Pointer:
 		arr := t.Elem().Underlying().(*types.Array)
 		in.safety(n, st, "nil", not(eq(base.T, "LNil")), x.Pos())
@@ -1012,13 +1033,13 @@ func (in *inst) convert(n *vnode, st *State, v Val, from, to types.Type) Val {
 		if ew == 8 {
 			fv.assume("true", eq(ln, "(s_len "+v.T+")"))
 			s := v.T
-			fv.havocHeap(st, leafKey(et), bvSort(8), func(l string) string { return and("((_ is LElem) "+l+")", eq("(epar "+l+")", arr)) },
+			fv.havocHeap(st, leafKey(et), bvSort(8), func(l string) string { return and("(isLElem "+l+")", eq("(epar "+l+")", arr)) },
 				func(l string) string { return "(s_at " + s + " (eidx " + l + "))" })
 		} else {
 			fv.assume("true", and("(bvsle #x0000000000000000 "+ln+")", "(bvsle "+ln+" (s_len "+v.T+"))",
 				implies("(bvsgt (s_len "+v.T+") #x0000000000000000)", "(bvsgt "+ln+" #x0000000000000000)"),
 				"(bvsle (s_len "+v.T+") (bvmul #x0000000000000004 "+ln+"))"))
-			fv.havocHeap(st, leafKey(et), bvSort(ew), func(l string) string { return and("((_ is LElem) "+l+")", eq("(epar "+l+")", arr)) }, nil)
+			fv.havocHeap(st, leafKey(et), bvSort(ew), func(l string) string { return and("(isLElem "+l+")", eq("(epar "+l+")", arr)) }, nil)
 		}
 		cp := fv.decl("cap", bvSort(64))
 		fv.assume("true", and("(bvsle "+ln+" "+cp+")", "(bvslt "+cp+" #x0000400000000000)"))
@@ -1076,7 +1097,16 @@ func (in *inst) typeAssert(n *vnode, st *State, x *ssa.TypeAssert) {
 	} else {
 		tag := fv.eng.tagOf(x.AssertedType)
 		ok = eq("(itag "+v.T+")", fmt.Sprint(tag))
+		if k := st.tags[v.T]; k == tag {
+			ok = "true"
+		} else if k > 0 || k == -tag {
+			ok = "false"
+		}
 		res = in.unbox(st, v, x.AssertedType)
+		if ok != "true" && ok != "false" {
+			ok = fv.defAlways("ok", "Bool", ok)
+			fv.okTerms[ok] = okFact{iface: v.T, tag: tag}
+		}
 	}
 	ok = fv.def("ok", "Bool", ok)
 	if x.CommaOk {
@@ -1194,9 +1224,9 @@ func elemLeafOf(l, arr string, path []int) string {
 	cur := l
 	var conds []string
 	for i := len(path) - 1; i >= 0; i-- {
-		conds = append(conds, "((_ is LField) "+cur+")", eq("(fidx "+cur+")", fmt.Sprint(path[i])))
+		conds = append(conds, "(isLField "+cur+")", eq("(fidx "+cur+")", fmt.Sprint(path[i])))
 		cur = "(fpar " + cur + ")"
 	}
-	conds = append(conds, "((_ is LElem) "+cur+")", eq("(epar "+cur+")", arr))
+	conds = append(conds, "(isLElem "+cur+")", eq("(epar "+cur+")", arr))
 	return and(conds...)
 }
